@@ -109,6 +109,7 @@ Theorem draw_win_ok e w h t ww wh foc :
     (forall c r, cur = Some (c, r) -> 0 <= c < ww /\ 0 <= r < wh).
 Proof.
   intros W Hw Hh. unfold draw_win.
+  replace ((ww <? 1) || (wh <? 1)) with false by lia. unfold draw_win_unfixed.
   assert (Hfin : forall t', WFs0 e ww wh t' ->
      exists t'0 cur, TOk (t', draw t', if m_tcem (t_md t') && foc then Some (t_col t', t_row t') else None)
                      = TOk (t'0, draw t'0, cur) /\ WFs0 e ww wh t'0 /\
@@ -124,14 +125,22 @@ Proof.
     rewrite E1; cbn [tbind]. now apply Hfin.
 Qed.
 
-(* on the host: every cell written lies in the visible part of the window (inside the window,
-   inside every ancestor, on the screen) whatever the chain is; the cursor handed to
-   Vaxis.ShowCursor lies in the window's rectangle, and in its visible part if the chain is
-   nested *)
+(* Draw into a window without a cell does nothing *)
+Lemma draw_win_empty t ww wh foc :
+  (1 <=? ww) && (1 <=? wh) = false -> draw_win t ww wh foc = TOk (t, [], None).
+Proof. intros H. unfold draw_win. replace ((ww <? 1) || (wh <? 1)) with true by lia. reflexivity. Qed.
+
+(* on the host, for every chain of windows (any offsets, any sizes): Draw does not panic and the
+   terminal stays well formed - at the window's size if the window has a cell, untouched (and
+   nothing is written, no cursor is shown) if it has none; every cell written lies in the
+   visible part of the window (inside the window, inside every ancestor, on the screen); the
+   cursor handed to Vaxis.ShowCursor lies in the window's rectangle, and in its visible part if
+   the chain is nested *)
 Theorem draw_window_inside e w h t l ps sc foc :
-  WFs0 e w h t -> win_ok (l :: ps) = true ->
-  exists t' calls cur, draw_win t (wl_w l) (wl_h l) foc = TOk (t', calls, cur) /\
-    WFs0 e (wl_w l) (wl_h l) t' /\
+  WFs0 e w h t ->
+  exists t' calls cur w' h', draw_win t (wl_w l) (wl_h l) foc = TOk (t', calls, cur) /\
+    WFs0 e w' h' t' /\
+    (if win_ok (l :: ps) then w' = wl_w l /\ h' = wl_h l else t' = t /\ calls = [] /\ cur = None) /\
     (forall c r x, In (c, r, x) calls -> 0 <= c < wl_w l /\ 0 <= r < wl_h l) /\
     (forall x y x0, In (x, y, x0) (host_writes (l :: ps) sc calls) -> in_clip (l :: ps) sc x y = true) /\
     (forall c r, cur = Some (c, r) ->
@@ -139,14 +148,18 @@ Theorem draw_window_inside e w h t l ps sc foc :
        (chain_nested (l :: ps) sc = true ->
         in_clip (l :: ps) sc (fst (win_cursor (l :: ps) c r)) (snd (win_cursor (l :: ps) c r)) = true)).
 Proof.
-  intros W Hok. cbn [win_ok] in Hok.
-  destruct (draw_win_ok e w h t (wl_w l) (wl_h l) foc W ltac:(lia) ltac:(lia)) as (t' & cur & E & W' & Hd & Hc).
-  exists t', (draw t'), cur. split; [exact E|]. split; [exact W'|]. split; [exact Hd|]. split.
-  - intros x y x0 Hin. now apply host_writes_in in Hin.
-  - intros c r Ec. specialize (Hc c r Ec).
-    assert (R : in_rect (l :: ps) (fst (win_cursor (l :: ps) c r)) (snd (win_cursor (l :: ps) c r)) = true).
-    { unfold in_rect, win_cursor; cbn [win_origin fst snd]. lia. }
-    split; [exact R|]. intros N. now apply nested_rect_clip.
+  intros W. destruct (win_ok (l :: ps)) eqn:Hok; cbn [win_ok] in Hok.
+  - destruct (draw_win_ok e w h t (wl_w l) (wl_h l) foc W ltac:(lia) ltac:(lia)) as (t' & cur & E & W' & Hd & Hc).
+    exists t', (draw t'), cur, (wl_w l), (wl_h l).
+    split; [exact E|]. split; [exact W'|]. split; [split; reflexivity|]. split; [exact Hd|]. split.
+    + intros x y x0 Hin. now apply host_writes_in in Hin.
+    + intros c r Ec. specialize (Hc c r Ec).
+      assert (R : in_rect (l :: ps) (fst (win_cursor (l :: ps) c r)) (snd (win_cursor (l :: ps) c r)) = true).
+      { unfold in_rect, win_cursor; cbn [win_origin fst snd]. lia. }
+      split; [exact R|]. intros N. now apply nested_rect_clip.
+  - exists t, [], None, w, h. rewrite (draw_win_empty _ _ _ _ Hok).
+    split; [reflexivity|]. split; [exact W|]. split; [repeat split|].
+    split; [intros c r x []|]. split; [intros x y x0 []|]. intros c r Ec; discriminate Ec.
 Qed.
 
 (* ------------------------------------------------------------------ the observed Draw *)
@@ -162,29 +175,29 @@ Lemma firstn_all' {A} (l : list A) : firstn (length l) l = l.
 Proof. induction l; simpl; congruence. Qed.
 
 (* "no mismatch" implies "no violation": an observed Draw (after a stall-free history from
-   New(), into a window of at least one cell) that the model reproduces satisfies [wdraw_holds] *)
+   New(), into any window) that the model reproduces satisfies [wdraw_holds] *)
 Theorem wdraw_agreeing_holds w h o0 (rest : hist_case) sc ch foc ob :
   1 <= w -> 1 <= h -> Forall hstep_ok (map fst rest) -> stall_free (map fst rest) = true ->
-  win_ok ch = true ->
   wdraw_model_ok ((HResize w h, o0) :: rest, (sc, ch, foc), ob) = true ->
   wdraw_holds ((HResize w h, o0) :: rest, (sc, ch, foc), ob) = true.
 Proof.
-  intros Hw Hh Hok Hsf Hwin M.
+  intros Hw Hh Hok Hsf M.
   destruct ob as [[[out o] [[vis ccol] crow]] cells].
   unfold wdraw_model_ok in M. apply andb_true_iff in M; destruct M as [_ M].
   rewrite final_term_run in M. cbn [map fst] in M.
   destruct (term_safe_run w h (map fst rest) Hw Hh Hok Hsf (length (map fst rest))) as (t & Er & (e & w1 & h1 & W)).
   rewrite firstn_all' in Er. rewrite Er in M.
   destruct ch as [|l ps]; [discriminate|].
-  destruct (draw_window_inside e w1 h1 t l ps sc foc W Hwin) as (t' & calls & cur & E & W' & _ & Hwr & Hcur).
+  destruct (draw_window_inside e w1 h1 t l ps sc foc W) as (t' & calls & cur & w' & h' & E & W' & Hk & _ & Hwr & Hcur).
   rewrite E in M.
   repeat (apply andb_true_iff in M; destruct M as [M ?]).
   rename H into Mcur, H0 into Mcells, H1 into Mobs, H2 into Mo.
   assert (Ho : o_out o = 0) by lia.
   pose proof (obs_matches_wf _ _ _ _ _ W' Ho Mobs) as Hwf.
   pose proof (WFs_height _ _ _ _ W') as Hh'. pose proof (WFs_width _ _ _ _ W') as Hw'.
-  assert (Hsz : (o_cols o =? wl_w l) && (o_rows o =? wl_h l) = true).
-  { unfold obs_matches in Mobs. repeat (apply andb_true_iff in Mobs; destruct Mobs as [Mobs ?]). lia. }
+  assert (Hsz : negb (win_ok (l :: ps)) || ((o_cols o =? wl_w l) && (o_rows o =? wl_h l)) = true).
+  { destruct (win_ok (l :: ps)); [|reflexivity]. destruct Hk as [-> ->].
+    unfold obs_matches in Mobs. repeat (apply andb_true_iff in Mobs; destruct Mobs as [Mobs ?]). cbn [negb orb]. lia. }
   unfold wdraw_holds. rewrite M, Hwf, Hsz. cbn [andb].
   rewrite (hcell_eqb_forall (in_clip (l :: ps) sc) _ _ Mcells).
   2:{ intros x y c Hin. eapply msparse_clip; exact Hin. }
